@@ -288,7 +288,7 @@ pub open spec fn fun_arg_post(formals: Seq<FunctionArg>, n_args: int, added: usi
 //@@ REPLACE
 //@@< ctx_f_arg.name == SELF
 //@@> verif_string_is(&ctx_f_arg.name, SELF)
-//@@ REPLACE pin=ed69404d2892
+//@@ REPLACE pin=75f502ed2a83
 //@@< if let Ok(Ok($tu)) = expected.ty().map($$) { $$ } else { $$ }
 //@@> verif_havoc_push_argument(constr, &ctx_arg_ty, &expected, name);
 //@@ REPLACE
